@@ -484,6 +484,29 @@ static void space_blocks(int maxn)
 	}
 }
 
+/* blocks whose 16-bit command count is at and around the sizes of 8/15/16-bit counters, each followed by a second block */
+static void space_bigblocks(void)
+{
+	static const int sizes[] = { 255, 256, 257, 4095, 4096, 32767, 32768, 65534, 65535 };
+	static ref_lh_block bl[2];
+	static ref_cmd big[65536 + 8], small[4];
+	unsigned si;
+	int style;
+	for (si = 0; si < sizeof sizes / sizeof *sizes; ++si)
+	for (style = 0; style < 2; ++style) {
+		int n = sizes[si], i;
+		unsigned produced = 0;
+		if (!vf_case("%s block of %d commands (%s) followed by a block of 3", M->name, n, style ? "literals and copies" : "literals only")) continue;
+		for (i = 0; i < n; ++i) {
+			if (style && i % 5 == 4 && produced > 8) { big[i] = cpy((unsigned) (i * 7) % (produced < 200 ? produced - 1 : 200), 3 + (unsigned) (i % 6)); produced += big[i].len; }
+			else { big[i] = lit((unsigned) (i * 31 + (i >> 8)) & 0xFF); ++produced; }
+		}
+		small[0] = lit(0x5A); small[1] = cpy(1, 4); small[2] = lit(0xA5);
+		if (!ref_lh_block_auto(M, &bl[0], big, n) || !ref_lh_block_auto(M, &bl[1], small, 3)) { printf("HARNESS big block not expressible\n"); continue; }
+		emit_and_check(bl, 2, 1);
+	}
+}
+
 /* ------------------------------------------------------------------ space: wrap */
 
 static void space_wrap(void)
@@ -552,7 +575,7 @@ int main(int argc, char **argv)
 	if (!M) { fprintf(stderr, "bad method\n"); return 2; }
 	if (!strcmp(VF.space, "tables")) space_tables();
 	else if (!strcmp(VF.space, "seq")) space_seq(atoi(vf_extra("depth", "3")));
-	else if (!strcmp(VF.space, "blocks")) space_blocks(atoi(vf_extra("maxn", "6")));
+	else if (!strcmp(VF.space, "blocks")) { space_blocks(atoi(vf_extra("maxn", "6"))); space_bigblocks(); }
 	else if (!strcmp(VF.space, "wrap")) space_wrap();
 	else { fprintf(stderr, "unknown space %s\n", VF.space); return 2; }
 	vf_done();
